@@ -2,6 +2,7 @@ package mon
 
 import (
 	"fmt"
+	"strings"
 
 	stackage "github.com/JesseCoretta/go-stackage"
 	"verifharness/core"
@@ -50,6 +51,12 @@ func equivalent(a, b any) string {
 func c12Run(c *core.Ctx, idx int) {
 	r := c.Rng
 	nat := c12Gen.Gen(r)
+	if sp := core.NewRng(core.Mix(uint64(c.Seed)+0x5b1ce, uint64(idx))); true && sp.Chance(1, 6) {
+		// (own PRNG stream, so that the rest of the case is what it was without this step)
+		if did := Spice(sp, nat, sp.Chance(1, 2), sp.Chance(1, 2), sp.Chance(1, 2)); did != "" {
+			c.Count("trees.spiced." + strings.ReplaceAll(strings.TrimSpace(did), " ", "+"))
+		}
+	}
 	closures := r.Chance(1, 3)
 	if closures {
 		// user closures on individual nodes (the same ones in both trees): whatever the parent does with a nested node's
